@@ -156,11 +156,39 @@ pub fn check_tokens(front: &str, text: &str, src: &[char], toks: &[Token], plain
     }
 }
 
+/// which condensing steps fired on this document (generator distribution)
+fn doc_counts(src: &[char], toks: &[Token], out: &mut Out) {
+    for t in toks {
+        let len = t.span.end.saturating_sub(t.span.start);
+        let txt: &[char] = if t.span.end <= src.len() && t.span.start <= t.span.end { &src[t.span.start..t.span.end] } else { &[] };
+        match &t.kind {
+            TokenKind::Word(_) => {
+                if txt.contains(&'\'') || txt.contains(&'’') {
+                    out.counts.push("doc:contraction".into());
+                }
+                if txt.len() >= 2 && txt.contains(&'.') && !txt.iter().any(|c| c.is_whitespace()) && txt.last() == Some(&'.') {
+                    if txt.len() >= 4 && txt[1] == '.' { out.counts.push("doc:initialism".into()); } else { out.counts.push("doc:latin-or-short-initialism".into()); }
+                }
+                if txt.iter().any(|c| c.is_whitespace()) {
+                    out.counts.push("doc:et-al".into());
+                }
+            }
+            TokenKind::Punctuation(Punctuation::Ellipsis) if len >= 2 => out.counts.push("doc:ellipsis".into()),
+            TokenKind::Punctuation(Punctuation::Quote(q)) => out.counts.push(if q.twin_loc.is_some() { "doc:quote-paired".into() } else { "doc:quote-unpaired".into() }),
+            TokenKind::Number(n) if n.suffix.is_some() => out.counts.push("doc:number-suffix".into()),
+            TokenKind::Space(n) if *n > len || txt.contains(&'\t') && txt.contains(&' ') => out.counts.push("doc:space-merged".into()),
+            TokenKind::ParagraphBreak => out.counts.push("doc:parbreak".into()),
+            _ => {}
+        }
+    }
+}
+
 /// K on the plain parser + O on the plain document
 pub fn eval_plain(text: &str) -> Out {
     let mut out = Out { k: vec![], fails: vec![], counts: vec![], monitors: vec![], nontrivial: None };
     let src: Vec<char> = text.chars().collect();
     let r = guarded(|| PlainEnglish.parse(&src));
+    let mut r_ext: Option<String> = None;
     match r {
         Err(_) => {
             out.k.push((format!("lex | {} | ", text_field(&src)), "panic".into()));
@@ -168,6 +196,7 @@ pub fn eval_plain(text: &str) -> Out {
             out.fails.push(("panic".into(), "PlainEnglish::parse panicked".into(), json!({"frontend": "plaintext", "text": text})));
         }
         Ok(toks) => {
+            r_ext = Some(ext_field(&toks));
             let op = format!("lex | {} | {}", text_field(&src), ext_field(&toks));
             let imp = format!("ok {}", toks_show(&toks)).trim_end().to_string();
             // assumption monitor: external lexers stay inside the text and consume ≥ 1 char
@@ -198,10 +227,21 @@ pub fn eval_plain(text: &str) -> Out {
             check_tokens("plaintext(parser)", text, &src, &toks, true, &mut out);
         }
     }
-    // final Document tokens (after the condense passes)
+    // final Document tokens (after the condense passes): K against the model of `Document::parse`
     let dict = FstDictionary::curated();
-    if let Ok(doc) = guarded(|| Document::new(text, &PlainEnglish, &dict)) {
-        check_tokens("plaintext", text, doc.get_source(), doc.get_tokens(), true, &mut out);
+    let ext = match &r_ext { Some(e) => e.clone(), None => String::new() };
+    let dop = format!("doc | {} | {}", text_field(&src), ext);
+    match guarded(|| Document::new(text, &PlainEnglish, &dict)) {
+        Ok(doc) => {
+            let toks = doc.get_tokens();
+            out.k.push((dop, format!("ok {}", toks_show(toks)).trim_end().to_string()));
+            doc_counts(&src, toks, &mut out);
+            check_tokens("plaintext", text, doc.get_source(), toks, true, &mut out);
+        }
+        Err(_) => {
+            out.k.push((dop, "panic".into()));
+            out.fails.push(("panic".into(), "Document::new panicked".into(), json!({"frontend": "plaintext", "text": text})));
+        }
     }
     out
 }
@@ -410,6 +450,8 @@ pub fn run(ctx: &Ctx) {
     // 1. corpus: witnesses of past findings and lexer corner cases
     for s in [
         "See e.g.", "e.g. foo", "2stuff", "et al. said", "Et Al.", " \t ", "\t\t  \t", "1980st", "1980s.", "0x", "0x1G", "0xFFFFFFFFFFFFFFFFF",
+        "et \n al.", "et\t al. ETC. vS. etc .", "a.b.c. d.e.", "a.b.c", "I.e.", "x. y.", "a'b'c'd'e", "a''b", "'a'b", "1st 2ND 3rd 4tH 5stx 0x1Fst 1.5th", "1 st", "....", ". .. ... a...b",
+        " \t \t \t", "\t \t", "  \t\t  ", "\n \n\n \n", "\n\n\n\n", "\"a\" “b” \"c", "\"\"\"", "1st.2nd", "N.S.A. etc. et al. 1st... \"q\"",
         "1.14.4. and 5", "I have 5.\n\n3", "a's 5's O'Neil's", "[a-z0-9] [a-z [a-] [ab]", "a'b'c'd", "....", ". . ..", "\"a\" \"b", "1e999$",
         "http://a.b/c user@x.y www.a.b. a.b", "1000000000000011th", "12345678901234567890 123456789012345.678901234567890", "0.000000000000000000001e10 1e-320 9007199254740993", "x:y //", "٣1 ½ 1½", "1.e5 1e+5 1e 1.", "İstanbul ﬁ ß", "don’t", "\n\n\n", "", " ",
     ] {
@@ -454,6 +496,23 @@ pub fn run(ctx: &Ctx) {
             for _ in 0..len {
                 s.push(alpha2[c % n2]);
                 c /= n2;
+            }
+            plain_inputs.push(s);
+        }
+    }
+    // 2c. third exhaustive stream, for the condensing passes: all sequences of ≤ 4 (quick) / ≤ 5
+    // (thorough) PIECES, so that initialisms `a.b.`, contractions `a'b'a`, `et al.`, `etc.`, `1st`,
+    // `...`, merged blanks, paragraph breaks and quotes are all reached and combined
+    let pieces: Vec<&str> = vec!["a", "b", ".", "'", " ", "\t", "\n", "et", "al", "etc", "Vs", "1", "st", "\"", "nD", "I"];
+    let np = pieces.len();
+    for len in 1..=maxlen {
+        let total = np.pow(len as u32);
+        for code in 0..total {
+            let mut c = code;
+            let mut s = String::new();
+            for _ in 0..len {
+                s.push_str(pieces[c % np]);
+                c /= np;
             }
             plain_inputs.push(s);
         }
@@ -513,6 +572,30 @@ pub fn run(ctx: &Ctx) {
         }
         merge(&mut sess, o);
     }
+    // --- K: the f64 literal recogniser the number lexer relies on (`str::parse::<f64>`) ----
+    {
+        let alpha: Vec<char> = vec!['1', '0', '.', 'e', 'E', '+', '-', 'i', 'n', 'f', 'a', 'N', 't', 'y', ' '];
+        let maxlen = if ctx.tier == Tier::Thorough { 5 } else { 4 };
+        let n = alpha.len();
+        let mut cands: Vec<String> = vec!["inf".into(), "Infinity".into(), "+infinity".into(), "-NaN".into(), "nan".into(), "infinit".into(), "1e+5".into(), "1.e-5".into(), ".e5".into(), "1e".into(), "++1".into(), "1_0".into(), "0x10".into(), "１".into(), "".into()];
+        for len in 1..=maxlen {
+            for code in 0..n.pow(len as u32) {
+                let mut c = code;
+                let mut s = String::new();
+                for _ in 0..len {
+                    s.push(alpha[c % n]);
+                    c /= n;
+                }
+                cands.push(s);
+            }
+        }
+        for s in cands {
+            let cs: Vec<char> = s.chars().collect();
+            let ok = s.parse::<f64>().is_ok();
+            sess.k(&format!("f64 | {}", chars_field(&cs)), if ok { "ok 1" } else { "ok 0" });
+            sess.count(if ok { "f64:accepted" } else { "f64:rejected" });
+        }
+    }
     // --- O on every front-end ------------------------------------------------------------
     let ids = frontends::language_ids();
     sess.add("frontends", ids.len() as u64);
@@ -552,8 +635,8 @@ pub fn run(ctx: &Ctx) {
         merge(&mut sess, o);
     }
     sess.finish(
-        "K: PlainEnglish::parse vs the Lean lexer model, every text twice: op `lex` (url/e-mail/hostname tokens handed to the model as a table) and op `lexfull` (those three lexers computed by the model, nothing handed over), on (1) corpus of lexer corner cases incl. curated url / e-mail / hostname corner cases alone and embedded, (2) ALL strings of length ≤4 (quick) / ≤5 (thorough) over the alphabet {a,1,.,',space,tab,newline,s,0,x,[,],-,e} and over the alphabet {a,1,.,-,@,:,/,%,\",space,+,_,A,é}, (3) structured random texts (rule-test sentences mutated by truncation, spice splices, delimiter drops, long words, glued digits), random code points, and random url / address / host look-alikes; op `extlex`: lex_url / lex_email_address / lex_hostname_token / lex_hostname compiled from /repo and called directly on arbitrary slices (suffixes of the curated cases, ALL strings of length ≤4/5 over the second alphabet, random look-alikes), result lengths against the model and against 1 ≤ n ≤ slice length. O: the property's clauses (bounds, order, disjointness, zero-width only structural, plain tiling, per-kind shape, quote twins) on the final Document tokens of plain English and of every language id of the server's table (prose embedded in language-appropriate syntax, plus the repo's fixtures), also wrapped in CollapseIdentifiers / IsolateEnglish. Non-trivial = a plain text whose tokens have ≥3 distinct kinds; distinct by op line.",
+        "K: PlainEnglish::parse vs the Lean lexer model, every text twice: op `lex` (url/e-mail/hostname tokens handed to the model as a table) and op `lexfull` (those three lexers computed by the model, nothing handed over), and Document::new(text, &PlainEnglish, dict).get_tokens() vs the Lean model of Document::parse (op `doc`: all condensing passes, quote twins, number suffixes), on (1) corpus of lexer corner cases incl. curated url / e-mail / hostname corner cases alone and embedded, (2) ALL strings of length ≤4 (quick) / ≤5 (thorough) over the alphabet {a,1,.,',space,tab,newline,s,0,x,[,],-,e} and over the alphabet {a,1,.,-,@,:,/,%,\",space,+,_,A,é}, and ALL sequences of ≤4 / ≤5 pieces from {a,b,.,',space,tab,newline,et,al,etc,Vs,1,st,\",nD,I}, (3) structured random texts (rule-test sentences mutated by truncation, spice splices, delimiter drops, long words, glued digits), random code points, and random url / address / host look-alikes; op `extlex`: lex_url / lex_email_address / lex_hostname_token / lex_hostname compiled from /repo and called directly on arbitrary slices (suffixes of the curated cases, ALL strings of length ≤4/5 over the second alphabet, random look-alikes), result lengths against the model and against 1 ≤ n ≤ slice length. O: the property's clauses (bounds, order, disjointness, zero-width only structural, plain tiling, per-kind shape, quote twins) on the final Document tokens of plain English and of every language id of the server's table (prose embedded in language-appropriate syntax, plus the repo's fixtures), also wrapped in CollapseIdentifiers / IsolateEnglish. Non-trivial = a plain text whose tokens have ≥3 distinct kinds; distinct by op line.",
         true,
-        json!({"exhaustive_scope": format!("all strings of length ≤{} over each of two 14-character alphabets", maxlen), "language_ids": ids}),
+        json!({"exhaustive_scope": format!("all strings of length ≤{} over each of two 14-character alphabets; all sequences of ≤{} pieces over 16 pieces", maxlen, maxlen), "language_ids": ids}),
     );
 }
